@@ -14,15 +14,103 @@ BUILD_SPEC_RS = """
 // the label sequence of a valid domain name
 pub open spec fn name_ok(ls: Seq<Label>) -> bool { shape_ok(ls) && all_labels_wf(ls) && labels_sum(ls) <= 255 }
 spec fn zr_of(d: RecordTypeWithData, ttl: u32) -> ZoneRecord { ZoneRecord { rtype_with_data: d, ttl } }
-// the node reached by `path` exists and files the record under its type
-spec fn holds(root: ZoneRecords, path: Seq<Label>, d: RecordTypeWithData, ttl: u32) -> bool {
-    node_at(root, path) is Some && node_at(root, path)->Some_0.this@.contains_key(spec_rtype_of(d))
-    && node_at(root, path)->Some_0.this@[spec_rtype_of(d)]@.contains(zr_of(d, ttl))
+// the record maps of one node: its own records, or its wildcard records
+spec fn recs_of(n: ZoneRecords, wild: bool) -> Map<RecordType, Vec<ZoneRecord>> {
+    if !wild { n.this@ } else if n.wildcards is Some { n.wildcards->Some_0@ } else { Map::empty() }
 }
-spec fn holds_wild(root: ZoneRecords, path: Seq<Label>, d: RecordTypeWithData, ttl: u32) -> bool {
-    node_at(root, path) is Some && node_at(root, path)->Some_0.wildcards is Some
-    && node_at(root, path)->Some_0.wildcards->Some_0@.contains_key(spec_rtype_of(d))
-    && node_at(root, path)->Some_0.wildcards->Some_0@[spec_rtype_of(d)]@.contains(zr_of(d, ttl))
+spec fn node_stores(n: ZoneRecords, wild: bool, d: RecordTypeWithData, ttl: u32) -> bool {
+    recs_of(n, wild).contains_key(spec_rtype_of(d)) && recs_of(n, wild)[spec_rtype_of(d)]@.contains(zr_of(d, ttl))
+}
+// the node reached by `path` exists and files the record under its type
+spec fn stored(root: ZoneRecords, wild: bool, path: Seq<Label>, d: RecordTypeWithData, ttl: u32) -> bool {
+    node_at(root, path) is Some && node_stores(node_at(root, path)->Some_0, wild, d, ttl)
+}
+spec fn holds(root: ZoneRecords, path: Seq<Label>, d: RecordTypeWithData, ttl: u32) -> bool { stored(root, false, path, d, ttl) }
+spec fn holds_wild(root: ZoneRecords, path: Seq<Label>, d: RecordTypeWithData, ttl: u32) -> bool { stored(root, true, path, d, ttl) }
+// what an insertion of (d, ttl) at `target` does to what a tree stores: that record is stored, every stored record is kept, nothing else appears
+#[verifier::opaque]
+spec fn stores_one_more(a: ZoneRecords, b: ZoneRecords, wild: bool, target: Seq<Label>, d: RecordTypeWithData, ttl: u32) -> bool {
+    &&& stored(b, wild, target, d, ttl)
+    &&& forall|p: Seq<Label>, d2: RecordTypeWithData, t2: u32| #![trigger stored(b, wild, p, d2, t2)] #![trigger stored(a, wild, p, d2, t2)] stored(a, wild, p, d2, t2) ==> stored(b, wild, p, d2, t2)
+    &&& forall|p: Seq<Label>, d2: RecordTypeWithData, t2: u32| #![trigger stored(b, wild, p, d2, t2)] stored(b, wild, p, d2, t2) ==> stored(a, wild, p, d2, t2) || (p =~= target && d2 == d && t2 == ttl)
+    &&& forall|w: bool, p: Seq<Label>, d2: RecordTypeWithData, t2: u32| #![trigger stored(b, w, p, d2, t2)] #![trigger stored(a, w, p, d2, t2)] w != wild ==> (stored(b, w, p, d2, t2) <==> stored(a, w, p, d2, t2))
+}
+// a freshly made node stores nothing
+proof fn lemma_new_stores_nothing(c: ZoneRecords)
+    requires forall|k: Label| !c.children@.contains_key(k), c.wildcards is None, forall|t: RecordType| !c.this@.contains_key(t),
+    ensures forall|w: bool, p: Seq<Label>, d: RecordTypeWithData, t: u32| !#[trigger] stored(c, w, p, d, t)
+{
+    assert forall|w: bool, p: Seq<Label>, d: RecordTypeWithData, t: u32| !#[trigger] stored(c, w, p, d, t) by {
+        if p.len() == 0 { assert(node_at(c, p) == Some(c)); } else { assert(node_at(c, p) is None); }
+    }
+}
+proof fn lemma_push_contains<T>(s: Seq<T>, x: T)
+    ensures forall|y: T| #[trigger] s.push(x).contains(y) <==> s.contains(y) || y == x
+{
+    assert forall|y: T| #[trigger] s.push(x).contains(y) <==> s.contains(y) || y == x by {
+        if s.contains(y) { let i = choose|i: int| 0 <= i < s.len() && s[i] == y; assert(s.push(x)[i] == y); }
+        if y == x { assert(s.push(x)[s.len() as int] == x); }
+        if s.push(x).contains(y) { let i = choose|i: int| 0 <= i < s.push(x).len() && s.push(x)[i] == y; if i < s.len() { assert(s[i] == y); } }
+    }
+}
+// the record is added to (or already in) this node's own map of its kind, everything else as before
+proof fn lemma_store_leaf(a: ZoneRecords, b: ZoneRecords, wild: bool, d: RecordTypeWithData, ttl: u32)
+    requires b.children == a.children, // [C02:inserting_at_a_node_leaves_the_nodes_below_it_alone]
+        forall|w: bool| w != wild ==> recs_of(b, w) == recs_of(a, w), // [C02:own_and_wildcard_records_are_kept_apart]
+        recs_of(b, wild).contains_key(spec_rtype_of(d)), // [C02:an_inserted_record_is_filed_under_its_own_type]
+        forall|t: RecordType| t != spec_rtype_of(d) ==> (#[trigger] recs_of(b, wild).contains_key(t) <==> recs_of(a, wild).contains_key(t)), // [C02:inserting_leaves_records_of_other_types_alone]
+        forall|t: RecordType| t != spec_rtype_of(d) && recs_of(a, wild).contains_key(t) ==> #[trigger] recs_of(b, wild)[t] == recs_of(a, wild)[t], // [C02:inserting_leaves_records_of_other_types_alone]
+        forall|zr: ZoneRecord| #[trigger] recs_of(b, wild)[spec_rtype_of(d)]@.contains(zr)
+            <==> (recs_of(a, wild).contains_key(spec_rtype_of(d)) && recs_of(a, wild)[spec_rtype_of(d)]@.contains(zr)) || zr == zr_of(d, ttl), // [C02:the_records_of_the_type_are_the_old_ones_and_the_inserted_one]
+    ensures stores_one_more(a, b, wild, Seq::<Label>::empty(), d, ttl)
+{
+    reveal(stores_one_more);
+    let e = Seq::<Label>::empty();
+    assert(node_at(b, e) == Some(b) && node_at(a, e) == Some(a));
+    assert forall|p: Seq<Label>| p.len() > 0 implies #[trigger] node_at(b, p) == node_at(a, p) by { }
+    assert forall|w: bool, p: Seq<Label>, d2: RecordTypeWithData, t2: u32| p.len() > 0 implies (#[trigger] stored(b, w, p, d2, t2) <==> stored(a, w, p, d2, t2)) by { assert(node_at(b, p) == node_at(a, p)); }
+    assert forall|w: bool, p: Seq<Label>, d2: RecordTypeWithData, t2: u32| p.len() == 0 implies (#[trigger] stored(b, w, p, d2, t2) <==> node_stores(b, w, d2, t2)) && (stored(a, w, p, d2, t2) <==> node_stores(a, w, d2, t2)) by { assert(p =~= e); }
+    assert(recs_of(b, wild)[spec_rtype_of(d)]@.contains(zr_of(d, ttl)));
+    assert forall|d2: RecordTypeWithData, t2: u32| #[trigger] node_stores(b, wild, d2, t2) <==> node_stores(a, wild, d2, t2) || (d2 == d && t2 == ttl) by {
+        if spec_rtype_of(d2) == spec_rtype_of(d) { assert(recs_of(b, wild)[spec_rtype_of(d)]@.contains(zr_of(d2, t2)) <==> (recs_of(a, wild).contains_key(spec_rtype_of(d)) && recs_of(a, wild)[spec_rtype_of(d)]@.contains(zr_of(d2, t2))) || zr_of(d2, t2) == zr_of(d, ttl)); }
+    }
+}
+// the record is added below child `l` (c0: that child before - the old child, or a fresh node that stores nothing), everything else as before
+proof fn lemma_store_child(a: ZoneRecords, b: ZoneRecords, c0: ZoneRecords, wild: bool, l: Label, rem: Seq<Label>, target: Seq<Label>, d: RecordTypeWithData, ttl: u32)
+    requires b.this == a.this, b.wildcards == a.wildcards, // [C02:inserting_below_a_node_leaves_its_own_records_alone]
+        target =~= rem.push(l), // [C02:a_record_is_filed_along_its_labels_from_the_right]
+        b.children@.contains_key(l), // [C02:the_child_node_is_attached_under_its_label]
+        stores_one_more(c0, b.children@[l], wild, rem, d, ttl), // [C02:the_child_node_stores_the_record_and_nothing_else_new]
+        a.children@.contains_key(l) ==> a.children@[l] == c0,
+        !a.children@.contains_key(l) ==> forall|w: bool, p: Seq<Label>, d2: RecordTypeWithData, t2: u32| !#[trigger] stored(c0, w, p, d2, t2),
+        forall|k: Label| k != l ==> (#[trigger] b.children@.contains_key(k) <==> a.children@.contains_key(k)), // [C02:inserting_leaves_the_other_children_alone]
+        forall|k: Label| k != l && a.children@.contains_key(k) ==> #[trigger] b.children@[k] == a.children@[k], // [C02:inserting_leaves_the_other_children_alone]
+    ensures stores_one_more(a, b, wild, target, d, ttl)
+{
+    reveal(stores_one_more);
+    let cb = b.children@[l];
+    assert(target.last() == l && target.drop_last() =~= rem);
+    assert(node_at(b, target) == node_at(cb, rem));
+    // what either tree stores at a path, in terms of the child
+    assert forall|w: bool, p: Seq<Label>, d2: RecordTypeWithData, t2: u32| true implies
+        (#[trigger] stored(b, w, p, d2, t2) <==> (if p.len() == 0 { node_stores(b, w, d2, t2) } else if p.last() == l { stored(cb, w, p.drop_last(), d2, t2) } else { stored(a, w, p, d2, t2) })) by {
+        if p.len() == 0 { assert(node_at(b, p) == Some(b)); }
+        else if p.last() == l { assert(node_at(b, p) == node_at(cb, p.drop_last())); }
+        else { assert(node_at(b, p) == node_at(a, p)); }
+    }
+    assert forall|w: bool, p: Seq<Label>, d2: RecordTypeWithData, t2: u32| true implies
+        (#[trigger] stored(a, w, p, d2, t2) <==> (if p.len() == 0 { node_stores(a, w, d2, t2) } else if p.last() == l { stored(c0, w, p.drop_last(), d2, t2) } else { stored(a, w, p, d2, t2) })) by {
+        if p.len() == 0 { assert(node_at(a, p) == Some(a)); }
+        else if p.last() == l { if a.children@.contains_key(l) { assert(node_at(a, p) == node_at(c0, p.drop_last())); } else { assert(node_at(a, p) is None); } }
+    }
+    assert forall|w: bool, d2: RecordTypeWithData, t2: u32| node_stores(b, w, d2, t2) == node_stores(a, w, d2, t2) by { }
+    assert forall|p: Seq<Label>, d2: RecordTypeWithData, t2: u32| #[trigger] stored(b, wild, p, d2, t2) implies stored(a, wild, p, d2, t2) || (p =~= target && d2 == d && t2 == ttl) by {
+        if p.len() > 0 && p.last() == l && !stored(a, wild, p, d2, t2) {
+            assert(stored(cb, wild, p.drop_last(), d2, t2));
+            assert(p.drop_last() =~= rem);
+            assert(p =~= p.drop_last().push(l));
+        }
+    }
 }
 // a tree that differs from `a` only in the subtree under child `l` (and possibly a new child `l`)
 proof fn lemma_tree_wf_update(a: ZoneRecords, b: ZoneRecords, l: Label)
@@ -72,9 +160,12 @@ proof fn lemma_tree_wf_children(a: ZoneRecords)
 }
 """
 
-INSERT_CONTRACT = """    requires tree_wf(*old(self)), name_ok(relative_domain@ + old(self).nsdname.labels@),
+def _insert_contract(kind):
+    wild = "false" if kind == "this" else "true"
+    return f"""    requires tree_wf(*old(self)), name_ok(relative_domain@ + old(self).nsdname.labels@),
     ensures tree_wf(*final(self)), // [C02:builders_establish_the_tree_invariant]
         final(self).nsdname == old(self).nsdname,
+        stores_one_more(*old(self), *final(self), {wild}, relative_domain@, rtype_with_data, ttl), // [C02:inserting_a_record_stores_it_under_its_name_and_type_keeps_every_stored_record_and_stores_nothing_else]
     decreases relative_domain@.len(),"""
 
 def _entry(kind):
@@ -104,15 +195,31 @@ proof {
     }
 }"""
 
+def _anchors(kind):
+    w = "false" if kind == "this" else "true"
+    call = "child.insert(remainder, rtype_with_data, ttl);" if kind == "this" else "child.insert_wildcard(remainder, rtype_with_data, ttl);"
+    leaf = (f"proof {{ let ghost olds__ = if recs_of(*old(self), {w}).contains_key(spec_rtype_of(d0)) {{ recs_of(*old(self), {w})[spec_rtype_of(d0)]@ }} else {{ Seq::<ZoneRecord>::empty() }};"
+            f" lemma_push_contains(olds__, zr_of(d0, ttl)); assert(seq![zr_of(d0, ttl)] =~= Seq::<ZoneRecord>::empty().push(zr_of(d0, ttl)));"
+            f" assert(relative_domain@ =~= Seq::<Label>::empty()); lemma_store_leaf(*old(self), *self, {w}, d0, ttl); }}")
+    # the lemmas are called where the branches end, so that whatever a branch does is measured against the contract
+    A = [{"after": "labels.insert(0, label.clone());", "proof": "assert(labels@ =~= seq![label] + self.nsdname.labels@);"},
+         {"after": "return;", "at": "before", "proof": leaf},
+         {"after_re": r"\}\s*else\s*\{\s*let label = ", "at": "before", "proof": leaf},
+         {"after_re": r"\}\s*else\s*\{\s*let mut labels = ", "at": "before", "proof": f"proof {{ lemma_store_child(*old(self), *self, old(self).children@[label], {w}, label, remainder@, relative_domain@, d0, ttl); }}"},
+         {"after": call, "nth": 1, "at": "before", "proof": "let ghost c0 = child; proof { lemma_new_stores_nothing(c0); }"},
+         {"after_re": r"\}\s*\}\s*\}\s*$", "at": "before", "proof": f"proof {{ lemma_store_child(*old(self), *self, c0, {w}, label, remainder@, relative_domain@, d0, ttl); }}"}]
+    return A
+
+
 BUILD_SPECS = {
     "ZoneRecords::new": {"props": ["C02"], "depub": True, "contract": """    ensures r.nsdname == nsdname, tree_wf(r), forall|k: Label| !r.children@.contains_key(k), r.wildcards is None, forall|t: RecordType| !r.this@.contains_key(t),""",
         "entry": BU, "anchors": []},
-    "ZoneRecords::insert": {"props": ["C02"], "depub": True, "contract": INSERT_CONTRACT, "entry": _entry("this"),
+    "ZoneRecords::insert": {"props": ["C02"], "depub": True, "attrs": "#[verifier::rlimit(100)] #[verifier::spinoff_prover]", "contract": _insert_contract("this"), "entry": _entry("this"),
         "rewrites_extra": True,
-        "anchors": [{"after": "labels.insert(0, label.clone());", "proof": "assert(labels@ =~= seq![label] + self.nsdname.labels@);"}]},
-    "ZoneRecords::insert_wildcard": {"props": ["C02"], "depub": True, "contract": INSERT_CONTRACT, "entry": _entry("wild"),
+        "anchors": _anchors("this")},
+    "ZoneRecords::insert_wildcard": {"props": ["C02"], "depub": True, "attrs": "#[verifier::rlimit(100)] #[verifier::spinoff_prover] // nested Option<HashMap> borrows", "contract": _insert_contract("wild"), "entry": _entry("wild"),
         "rewrites_extra": True,
-        "anchors": [{"after": "labels.insert(0, label.clone());", "proof": "assert(labels@ =~= seq![label] + self.nsdname.labels@);"}]},
+        "anchors": _anchors("wild")},
 }
 
 
@@ -125,9 +232,15 @@ ZONE_SPECS = {
     "Zone::actual_ttl": {"props": ["C02"], "depub": True, "rewrites": ["R2d"], "contract": """    ensures r >= ttl, self.soa is Some ==> r >= self.soa->Some_0.minimum, self.soa is None ==> r == ttl,
         self.soa is Some ==> (r == ttl || r == self.soa->Some_0.minimum), // [C02:ttl_raised_to_the_soa_minimum_only]"""},
     "Zone::insert": {"props": ["C02"], "depub": True, "contract": """    requires zone_wf(*old(self)), name.wf(),
-    ensures zone_wf(*final(self)), final(self).apex == old(self).apex, final(self).soa == old(self).soa, // [C02:builders_establish_the_tree_invariant]"""},
+    ensures zone_wf(*final(self)), final(self).apex == old(self).apex, final(self).soa == old(self).soa, // [C02:builders_establish_the_tree_invariant]
+        is_suffix(old(self).apex.labels@, name.labels@) ==> stores_one_more(old(self).records, final(self).records, false, rel_of(old(self).apex, *name), rtype_with_data, eff_ttl(old(self).soa, ttl)), // [C02:a_record_put_into_a_zone_is_stored_under_its_name_with_the_ttl_raised_to_the_soa_minimum_and_nothing_else_changes]
+        !is_suffix(old(self).apex.labels@, name.labels@) ==> final(self).records == old(self).records, // [C02:a_record_outside_the_zone_changes_nothing]""",
+        "anchors": [{"after": "if let Some(relative_domain) = self.relative_domain(name) {", "proof": "proof { assert(relative_domain@ =~= (relative_domain@ + self.apex.labels@).subrange(0, relative_domain@.len() as int)); }"}]},
     "Zone::insert_wildcard": {"props": ["C02"], "depub": True, "contract": """    requires zone_wf(*old(self)), name.wf(),
-    ensures zone_wf(*final(self)), final(self).apex == old(self).apex, final(self).soa == old(self).soa, // [C02:builders_establish_the_tree_invariant]"""},
+    ensures zone_wf(*final(self)), final(self).apex == old(self).apex, final(self).soa == old(self).soa, // [C02:builders_establish_the_tree_invariant]
+        is_suffix(old(self).apex.labels@, name.labels@) ==> stores_one_more(old(self).records, final(self).records, true, rel_of(old(self).apex, *name), rtype_with_data, eff_ttl(old(self).soa, ttl)), // [C02:a_record_put_into_a_zone_is_stored_under_its_name_with_the_ttl_raised_to_the_soa_minimum_and_nothing_else_changes]
+        !is_suffix(old(self).apex.labels@, name.labels@) ==> final(self).records == old(self).records, // [C02:a_record_outside_the_zone_changes_nothing]""",
+        "anchors": [{"after": "if let Some(relative_domain) = self.relative_domain(name) {", "proof": "proof { assert(relative_domain@ =~= (relative_domain@ + self.apex.labels@).subrange(0, relative_domain@.len() as int)); }"}]},
 }
 
 
@@ -145,7 +258,7 @@ def build(G):
     G.raw(BUILD_SPEC_RS, ("spec", "zone_build spec"))
     T, Z = G.src(TYPES), G.src(ZTYPES)
     specs = {}
-    r8 = ("R8", r"if entries\.iter\(\)\.any\(\|e\| e == &new\) \{", "if shim_vec_contains(entries, &new) {")
+    r8 = ("R8", r"entries\.iter\(\)\.any\(\|e\| e == &new\)|entries\.contains\(&new\)", "shim_vec_contains(entries, &new)")
     for k, v in BUILD_SPECS.items():
         v = dict(v)
         if v.pop("rewrites_extra", None):
@@ -156,7 +269,11 @@ def build(G):
     G.impl(T, "DomainName", ["from_labels"], "DomainName::", specs)
     G.impl(T, "RecordTypeWithData", ["rtype"], "RecordTypeWithData::", specs)
     G.impl(Z, "ZoneRecords", ["new", "insert", "insert_wildcard"], "ZoneRecords::", specs)
-    G.raw("spec fn zone_wf(z: Zone) -> bool { tree_wf(z.records) && z.records.nsdname == z.apex }")
+    G.raw("""spec fn zone_wf(z: Zone) -> bool { tree_wf(z.records) && z.records.nsdname == z.apex }
+// the part of a name below the apex
+spec fn rel_of(apex: DomainName, name: DomainName) -> Seq<Label> { name.labels@.subrange(0, name.labels@.len() - apex.labels@.len()) }
+// the TTL a record is stored with: raised to the SOA minimum of an authoritative zone
+spec fn eff_ttl(soa: Option<SOA>, ttl: u32) -> u32 { if soa is Some && soa->Some_0.minimum > ttl { soa->Some_0.minimum } else { ttl } }""")
     specs.update({k: dict(v) for k, v in ZONE_SPECS.items()})
     specs["SOA::to_rr"] = {"mode": "plain"}
     specs["SOA::to_rdata"] = {"mode": "plain"}
@@ -166,6 +283,10 @@ def build(G):
 
 
 CANARIES = [
+    {"name": "record_with_another_ttl_taken_for_a_duplicate", "file": ZTYPES, "old": "                if entries.iter().any(|e| e == &new) {\n                    return;\n                }\n\n                entries.push(new);\n            } else {\n                self.this.insert", "new": "                if entries.iter().any(|e| e.rtype_with_data == new.rtype_with_data) {\n                    return;\n                }\n\n                entries.push(new);\n            } else {\n                self.this.insert"},
+    {"name": "inserted_ttl_not_raised_to_soa_minimum", "file": ZTYPES, "old": "                .insert(relative_domain, rtype_with_data, self.actual_ttl(ttl));", "new": "                .insert(relative_domain, rtype_with_data, ttl);"},
+    {"name": "new_child_node_not_attached", "file": ZTYPES, "old": "                child.insert(remainder, rtype_with_data, ttl);\n                self.children.insert(label, child);", "new": "                child.insert(remainder, rtype_with_data, ttl);"},
+    {"name": "first_wildcard_record_replaces_own_records", "file": ZTYPES, "old": "                self.wildcards = Some(wildcards);", "new": "                self.wildcards = Some(wildcards);\n                self.this.clear();"},
     {"name": "filed_under_wrong_type", "file": ZTYPES, "old": "                self.this.insert(rtype, vec![new]);", "new": "                self.this.insert(RecordType::A, vec![new]);"},
     {"name": "child_looked_up_by_leftmost_label", "file": ZTYPES, "old": "            let label = relative_domain[relative_domain.len() - 1].clone();\n            let remainder = &relative_domain[0..relative_domain.len() - 1];\n            if let Some(child) = self.children.get_mut(&label) {\n                child.insert(remainder", "new": "            let label = relative_domain[0].clone();\n            let remainder = &relative_domain[0..relative_domain.len() - 1];\n            if let Some(child) = self.children.get_mut(&label) {\n                child.insert(remainder"},
     {"name": "wildcard_child_filed_under_other_label", "file": ZTYPES, "old": "                child.insert_wildcard(remainder, rtype_with_data, ttl);\n                self.children.insert(label, child);", "new": "                child.insert_wildcard(remainder, rtype_with_data, ttl);\n                self.children.insert(relative_domain[0].clone(), child);"},
